@@ -215,12 +215,25 @@ def run_unit(modname, keep_dir=None, rlimit=None):
                 with concurrent.futures.ThreadPoolExecutor(max_workers=6) as ex:
                     reruns = list(ex.map(rerun, sorted(bad_fns)))
                 cleared = set()
+                expanded = {}
                 for qn, rr in reruns:
                     errs = [dg for dg in rr['diags'] if dg.get('level') == 'error' and not dg.get('message', '').startswith('aborting')]
                     ok = rr['json'] is not None and not errs and rr['json'].get('verification-results', {}).get('verified', 0) > 0
                     retry_info.append(dict(function=qn, cleared=ok))
                     if ok:
                         cleared.add(qn)
+                    elif any('postcondition' in dg.get('message', '') or 'invariant' in dg.get('message', '') for dg in errs):
+                        # a persistent failure of a (possibly large, case-by-case) clause: ask Verus which conjuncts fail, for the report
+                        try:
+                            short = qn.split('::')[-1]
+                            p2 = subprocess.run(['verus', path, '--verify-root', '--verify-function', qn if '::' in qn else short, '--expand-errors',
+                                                 '--rlimit', str((base_rl or 10) * 2), '--multiple-errors', '8'],
+                                                cwd=os.path.dirname(path), capture_output=True, text=True, timeout=900)
+                            leaves = [re.sub(r'^[\s|]+', '', l).rstrip() for l in (p2.stdout + p2.stderr).split('\n') if '\u2718' in l]
+                            if leaves:
+                                expanded[qn] = leaves[:12]
+                        except Exception:
+                            pass
                 if cleared:
                     kept = []
                     for dg in r['diags']:
@@ -256,6 +269,7 @@ def run_unit(modname, keep_dir=None, rlimit=None):
         shutil.rmtree(d, ignore_errors=True)
     res.cmd = r['cmd'].replace(d, '<scratch>')
     res.retries = retry_info
+    res.expanded = locals().get('expanded', {}) or {}
     res.wall = time.time() - t0
     j = r['json']
     hard = []
@@ -349,6 +363,9 @@ def run_unit(modname, keep_dir=None, rlimit=None):
             rec['fn'] = f['qname'] if f else prelude_fn(ub, rec['line'])
             rec['origin'] = origin
             rec['site_origin'] = origin
+        if rec['kind'] in ('ensures', 'invariant') and rec['fn'] in getattr(res, 'expanded', {}):
+            rec['expanded'] = res.expanded[rec['fn']]
+            rec['rendered'] = rec.get('rendered', '') + '\nfailing conjuncts (verus --expand-errors):\n' + '\n'.join('  ' + l for l in rec['expanded'])
         if rec['fn'].endswith('__canary'):
             canary_failed.add(rec['fn'])
         else:
